@@ -70,14 +70,14 @@ theorem exec_use_room (l : Nat) (amt : Int) (hl : l < s.n) (ha : 0 < amt) (ho : 
   have h5 : fits (lockApi s).cap (lockApi s).used ((lockApi s).chain l) amt.toNat = fits s.cap s.used (s.chain l) amt.toNat := rfl
   simp only [micro, h2, and_self, if_true, h1, Bool.false_eq_true, if_false, h3, h4, h5]
 
-theorem exec_newChild_open (p c : Nat) (hp : p < s.n) (ho : s.closed p = false) :
-    exec s (.newChild p c) = doNewChild s p c := by
+theorem exec_newChild_open (p : Nat) (c : Int) (hp : p < s.n) (ho : s.closed p = false) :
+    exec s (.newChild p c) = doNewChild s p (clampCap c) := by
   rw [← unlock_newChild s _ _ hf]
   have h1 : (lockApi s).closed p = false := ho
   have h2 : p < (lockApi s).n ∧ (lockApi s).holder = .api := ⟨hp, rfl⟩
   simp [exec, plan, runMicros, micro, hp, hf, h1, h2]
 
-theorem exec_newChild_closed (p c : Nat) (hp : p < s.n) (hc : s.closed p = true) : exec s (.newChild p c) = s := by
+theorem exec_newChild_closed (p : Nat) (c : Int) (hp : p < s.n) (hc : s.closed p = true) : exec s (.newChild p c) = s := by
   have h1 : (lockApi s).closed p = true := hc
   have h2 : p < (lockApi s).n ∧ (lockApi s).holder = .api := ⟨hp, rfl⟩
   have : exec s (.newChild p c) = unlock (lockApi s) := by
@@ -98,7 +98,7 @@ theorem exec_closeChild_closed (l : Nat) (hl : l < s.n) (h0 : l ≠ 0) (hc : s.c
     simp [exec, plan, runMicros, micro, hl, hf, h0, h1, h2]
   rw [this, unlock_lockApi s hf]
 
-theorem exec_setCap (l c : Nat) (hl : l < s.n) : exec s (.setCap l c) = doSetCap s l c := by
+theorem exec_setCap (l : Nat) (c : Int) (hl : l < s.n) : exec s (.setCap l c) = doSetCap s l (clampCap c) := by
   rw [← unlock_setCap s _ _ hf]
   have h2 : l < (lockApi s).n ∧ (lockApi s).holder = .api := ⟨hl, rfl⟩
   simp [exec, plan, runMicros, micro, hl, hf, h2]
